@@ -215,7 +215,7 @@ func (c *Ctx) Finish(verifDir string, level string, explanation string, assumpti
 		}
 	}
 	cov := map[string]interface{}{
-		"obligation_list": allKeys,
+		"obligation_list":     allKeys,
 		"explanation":         explanation,
 		"obligations":         total,
 		"discharged":          discharged,
